@@ -358,7 +358,7 @@ func checkC02Decode(c *Check) {
 				a.AtomHook = rangeHook(isLenOctet, isConst(0))
 			}
 			a.Run()
-			for _, cl := range p.callsIn(fn, descIs("capabilityOptionalParam.decode")) {
+			for _, cl := range p.callsIn(fn, descIs("capabilityOptionalParam.decode", "invoke:optionalParam.decode")) {
 				for _, st := range a.At[cl.(ssa.Instruction)] {
 					n++
 					args := a.argExprs(st, nil, cl.Common())
